@@ -277,7 +277,7 @@ impl RollingFileAppenderBuilder {
         P: AsRef<Path>,
     {
         let path = super::env_util::expand_env_vars(path.as_ref().to_string_lossy());
-        let appender = RollingFileAppender {
+        let mut appender = RollingFileAppender {
             writer: Mutex::new(None),
             path: path.as_ref().into(),
             append: self.append,
@@ -293,6 +293,10 @@ impl RollingFileAppenderBuilder {
 
         // open the log file immediately
         appender.get_writer(&mut appender.writer.lock())?;
+
+        // truncate only here: a later reopen (after a roll, possibly a failed
+        // one that left the file in place) must not discard logged records
+        appender.append = true;
 
         Ok(appender)
     }
